@@ -40,6 +40,9 @@ func checkRuntime(c *Ctx, prop string) {
 	res := c.Res
 	res.Rule = rtRule
 	n := c.scale(160, 6000)
+	if prop == "C09" || prop == "C04" {
+		rtNoWatch(c, c.scale(300, 10000))
+	}
 	t0 := time.Now()
 	for i := 0; i < n; i++ {
 		cfg := rtConfig{
@@ -94,6 +97,73 @@ func checkRuntime(c *Ctx, prop string) {
 		if c.Search && (hasViolation(res) || time.Since(t0) > searchBudget(c)) {
 			break
 		}
+	}
+}
+
+// rtNoWatch: Config without any watching source (no monitor goroutine): Config's own verification and
+// EnableVerification's inline path, vs the model (configInit / enableNoWatch) and vs the oracle.
+func rtNoWatch(c *Ctx, n int) {
+	rng := c.RNG
+	res := c.Res
+	for i := 0; i < n; i++ {
+		nsrc := 1 + rng.Intn(3)
+		skipInit, delay, suppress := rng.Chance(30), rng.Chance(60), rng.Chance(50)
+		init := make([]int, nsrc)
+		valid := true
+		for k := range init {
+			init[k] = 4 * rng.Intn(50)
+			if rng.Chance(25) {
+				init[k]++
+				valid = false
+			}
+		}
+		r := &rtRun{c: c, nsrc: nsrc, actors: map[string]*actor{}, cfg: rtConfig{nsrc: nsrc}}
+		rtCur = r
+		srcs := make([]dials.Source, nsrc)
+		slots := make([]string, nsrc)
+		for k := range srcs {
+			srcs[k] = &rtStatic{idx: k, v: init[k]}
+			slots[k] = fmt.Sprint(init[k])
+		}
+		p := dials.Params[RC]{SkipInitialVerification: skipInit, DelayInitialVerification: delay, CallGlobalCallbacksAfterVerificationEnabled: suppress}
+		cs := map[string]any{"stream": "no-watching-source", "params": fmt.Sprintf("skipInit=%v delay=%v suppress=%v", skipInit, delay, suppress), "init": init}
+		var impl string
+		d, err := p.Config(context.Background(), &RC{}, srcs...)
+		before := len(r.verifyCalls)
+		if err != nil {
+			impl = "configErr " + r.errClass(err)
+		} else {
+			cfg, tok, eerr := d.EnableVerification(context.Background())
+			n := len(r.verifyCalls) - before
+			if eerr != nil {
+				impl = fmt.Sprintf("ok enErr verifies=%d", n)
+			} else {
+				impl = fmt.Sprintf("ok enOk:%d:%s verifies=%d", dials.VerifCfgSerial(tok), r.cfgStr(cfg), n)
+			}
+			// oracle
+			if delay && before != 0 {
+				res.Add(Finding{Kind: "violation", What: "Verify was invoked by Config although verification is delayed", Case: cs})
+			}
+			if delay && n != 1 {
+				res.Add(Finding{Kind: "violation", What: fmt.Sprintf("EnableVerification invoked Verify %d times on the installed config (expected exactly once)", n), Case: cs})
+			}
+			if delay && !valid && eerr == nil {
+				res.Add(Finding{Kind: "violation", What: "EnableVerification succeeded on a config that does not verify", Case: cs, Observed: impl})
+			}
+			if eerr == nil && (cfg == nil || r.cfgStr(cfg) != strings.Join(slots, ".")) {
+				res.Add(Finding{Kind: "violation", What: "EnableVerification did not return the installed config", Case: cs, Observed: impl})
+			}
+			if !delay && !skipInit && !valid {
+				res.Add(Finding{Kind: "violation", What: "Config succeeded with an initial stack that does not verify", Case: cs})
+			}
+		}
+		rtCur = nil
+		model := c.Drv.Ask(fmt.Sprintf("rt nowatch %s %s %s %s", b01(skipInit), b01(delay), b01(suppress), strings.Join(slots, ".")))
+		res.Count("nowatch/" + strings.Fields(impl)[0] + "/" + strings.SplitN(strings.Fields(impl)[1], ":", 2)[0])
+		if impl != model {
+			res.Add(Finding{Kind: "disagreement", What: "no-watcher path: model != implementation", Case: cs, Observed: impl, Model: model})
+		}
+		res.Case("nowatch|"+cs["params"].(string)+"|"+strings.Join(slots, "."), delay, cs)
 	}
 }
 
@@ -196,6 +266,24 @@ func rtOracle(r *rtRun, prop string) []string {
 				bad("OnWatchedError oldConfig %s is not an installed version", d.old)
 			}
 		}
+		out = append(out, rtBlockingOracle(r)...)
+		// unless the queue overflowed (or the Config context ended), every rejected update reaches OnWatchedError
+		if r.shutdownOK && !r.cfg.stuck && r.maxQueue < 64 && !r.rootCancelled {
+			rejected, delivered := 0, 0
+			for _, u := range r.updates {
+				if u.outcome == "stackErr" || u.outcome == "verifyErr" {
+					rejected++
+				}
+			}
+			for _, d := range r.deliveries {
+				if d.h == -2 && (d.err == "stack" || d.err == "verify") {
+					delivered++
+				}
+			}
+			if rejected != delivered {
+				bad("%d updates were rejected but OnWatchedError was called %d times for stack/verify errors although the queue never filled (max %d)", rejected, delivered, r.maxQueue)
+			}
+		}
 		// a rejected update must not change the view: serial of installs is dense (checked in C05) and
 		// every update has exactly one outcome
 		for _, u := range r.updates {
@@ -252,36 +340,9 @@ func rtOracle(r *rtRun, prop string) []string {
 	case "C06":
 		out = append(out, rtCallbackOracle(r, serialOf, cfgOfSerial)...)
 	case "C07":
-		// blocking reports
-		ui := 0
-		_ = ui
-		for _, ret := range r.returns {
-			if ret.op.Kind != "report" || !ret.op.Blocking {
-				continue
-			}
-			var u *rtUpdate
-			for _, x := range r.updates {
-				if x.blocking && x.src == ret.op.Src && x.v == ret.op.V {
-					u = x
-				}
-			}
-			switch ret.res {
-			case "nil":
-				if u == nil || u.outcome != "installed" {
-					bad("blocking report src=%d v=%d returned nil but its value was not installed", ret.op.Src, ret.op.V)
-				}
-			case "stackErr", "verifyErr":
-				if u == nil || u.outcome != ret.res {
-					o := "<never received>"
-					if u != nil {
-						o = u.outcome
-					}
-					bad("blocking report src=%d v=%d returned %s but the monitor's outcome was %s", ret.op.Src, ret.op.V, ret.res, o)
-				}
-			case "ctxErr":
-			default:
-				bad("blocking report returned %s", ret.res)
-			}
+		out = append(out, rtBlockingOracle(r)...)
+		if r.hang != "" {
+			bad("the monitor (or a caller) is left blocked: %s", strings.SplitN(r.hang, "\n", 2)[0])
 		}
 	case "C08":
 		for _, p := range r.panics {
@@ -297,6 +358,9 @@ func rtOracle(r *rtRun, prop string) []string {
 			if strings.HasPrefix(ret.res, "panic:") {
 				bad("API call %s panicked: %s", ret.op.Kind, ret.res)
 			}
+		}
+		for _, lr := range r.lateResults {
+			bad("API call after shutdown: %s", lr)
 		}
 	case "C09":
 		if r.cfg.delay {
@@ -327,8 +391,57 @@ func rtOracle(r *rtRun, prop string) []string {
 				bad("new-config event %d had global callbacks suppressed although delay=%v suppress=%v", g.serial, r.cfg.delay, r.cfg.suppress)
 			}
 		}
+		// source-reported errors are forwarded exactly when not (delay in force and option set)
+		wantFwd, gotFwd := 0, 0
+		for _, e := range r.srcErrs {
+			if !(e.skip && r.cfg.suppress) {
+				wantFwd++
+			}
+		}
 		for _, s := range r.submits {
-			_ = s
+			if s.kind == "sourceErr" {
+				gotFwd++
+			}
+		}
+		if r.mismatch == "" || r.shutdownOK {
+			if wantFwd != gotFwd {
+				bad("%d source-reported errors should have been forwarded to OnWatchedError (delay in force and suppress option not both true) but %d were", wantFwd, gotFwd)
+			}
+		}
+	}
+	return out
+}
+
+// rtBlockingOracle: what a blocking report returned vs what the monitor did with that update
+func rtBlockingOracle(r *rtRun) []string {
+	var out []string
+	bad := func(f string, a ...any) { out = append(out, fmt.Sprintf(f, a...)) }
+	for _, ret := range r.returns {
+		if ret.op.Kind != "report" || !ret.op.Blocking {
+			continue
+		}
+		var u *rtUpdate
+		for _, x := range r.updates {
+			if x.blocking && x.src == ret.op.Src && x.v == ret.op.V {
+				u = x
+			}
+		}
+		switch ret.res {
+		case "nil":
+			if u == nil || u.outcome != "installed" {
+				bad("blocking report src=%d v=%d returned nil but its value was not installed", ret.op.Src, ret.op.V)
+			}
+		case "stackErr", "verifyErr":
+			if u == nil || u.outcome != ret.res {
+				o := "<never received>"
+				if u != nil {
+					o = u.outcome
+				}
+				bad("blocking report src=%d v=%d returned %s but the monitor's outcome was %s", ret.op.Src, ret.op.V, ret.res, o)
+			}
+		case "ctxErr":
+		default:
+			bad("blocking report returned %s", ret.res)
 		}
 	}
 	return out
